@@ -49,6 +49,13 @@ def gen_shapes(ck, thorough):
 
     def rnd(n):
         return bytes(rng.randrange(256) for _ in range(n))
+    # witness / redeem scripts that spend with several signatures but are not a plain "m <keys> n CHECKMULTISIG":
+    # a timelocked multisig (<144> CSV DROP ...), one under IF, one behind a data push, a 3-of-3 and a 1-of-3
+    csv_ms = b'\x02\x90\x00\xb2\x75' + redeem
+    if_ms = b'\x63' + redeem + b'\x67' + push(keys[0][1]) + b'\xac\x68'
+    data_ms = push(b'\x01\x02\x03\x04') + b'\x75' + redeem
+    ms33 = bytes([0x53]) + b''.join(push(p) for _, p in keys) + bytes([0x53, 0xae])
+    ms13 = bytes([0x51]) + b''.join(push(p) for _, p in keys) + bytes([0x53, 0xae])
     in_scripts = {
         'empty': b'', 'zero': b'\x00', 'op1': b'\x51', 'p2pkh': push(sigs[0]) + push(keys[0][1]), 'p2pk': push(sigs[1]),
         'p2sh-multisig': b'\x00' + push(sigs[0]) + push(sigs[1]) + push(redeem), 'p2sh-p2wpkh': push(b'\x00\x14' + h20),
@@ -62,6 +69,10 @@ def gen_shapes(ck, thorough):
         'p2pkh-pushdata2': b'\x4d' + len(sigs[0]).to_bytes(2, 'little') + sigs[0] + push(keys[0][1]),
         'p2pk-pushdata1': b'\x4c' + bytes([len(sigs[1])]) + sigs[1],
         'p2sh-multisig-pushdata1': b'\x00' + b'\x4c' + bytes([len(sigs[0])]) + sigs[0] + push(sigs[1]) + push(redeem),
+        'p2sh-csv-multisig': b'\x00' + push(sigs[0]) + push(sigs[1]) + push(csv_ms),
+        'p2sh-if-multisig': b'\x00' + push(sigs[0]) + push(sigs[1]) + b'\x51' + push(if_ms),
+        'p2sh-3of3': b'\x00' + push(sigs[0]) + push(sigs[1]) + push(sigs[2]) + push(ms33),
+        'p2sh-1of3': b'\x00' + push(sigs[1]) + push(ms13),
     }
     wits = {
         'none': [], 'one-empty': [b''], 'one-zero': [b'\x00'], 'one-01': [b'\x01'], 'p2wpkh': [sigs[0], keys[0][1]],
@@ -71,6 +82,9 @@ def gen_shapes(ck, thorough):
         'p2wpkh-single': [sigs[0][:-1] + b'\x03', keys[0][1]], 'p2wpkh-none-acp': [sigs[0][:-1] + b'\x82', keys[0][1]],
         'p2wpkh-all-acp': [sigs[0][:-1] + b'\x81', keys[0][1]],
         'p2wsh-multisig-mixed': [b'', sigs[0][:-1] + b'\x02', sigs[1][:-1] + b'\x83', redeem],
+        'p2wsh-csv-multisig': [b'', sigs[0], sigs[1], csv_ms], 'p2wsh-if-multisig': [b'', sigs[0], sigs[1], b'\x01', if_ms],
+        'p2wsh-data-multisig': [b'', sigs[0], sigs[1], data_ms], 'p2wsh-3of3': [b'', sigs[0], sigs[1], sigs[2], ms33],
+        'p2wsh-1of3': [b'', sigs[2], ms13], 'p2wsh-sig-and-script': [sigs[0], push(keys[0][1]) + b'\xac'],
     }
     out_scripts = {
         'p2pkh': b'\x76\xa9\x14' + h20 + b'\x88\xac', 'p2sh': b'\xa9\x14' + h20 + b'\x87', 'p2wpkh': b'\x00\x14' + h20,
@@ -86,8 +100,11 @@ def gen_shapes(ck, thorough):
     def mk(in_specs, out_specs, vi=0, li=0):
         ins = []
         for j, (sk, wk, coinbase) in enumerate(in_specs):
+            script = in_scripts[sk]
+            if sk == 'p2sh-p2wsh' and wits[wk]:
+                script = push(b'\x00\x20' + ref.sha256(wits[wk][-1]))     # the program of the witness script actually revealed
             ins.append({'txid': b'\x00' * 32 if coinbase else rnd(32), 'vout': le(0xffffffff if coinbase else rng.choice([0, 1, 7, 65536]), 4),
-                        'script': in_scripts[sk], 'seq': rng.choice(seqs), 'wit': list(wits[wk])})
+                        'script': script, 'seq': rng.choice(seqs), 'wit': list(wits[wk])})
         outs = [{'value': le(rng.choice(values), 8), 'script': out_scripts[ok]} for ok in out_specs]
         tx = {'version': versions[vi % len(versions)], 'locktime': locktimes[li % len(locktimes)], 'ins': ins, 'outs': outs}
         tx['segwit'] = any(i['wit'] for i in ins)
@@ -100,7 +117,7 @@ def gen_shapes(ck, thorough):
         if sk == 'p2sh-p2wpkh':
             return wk in ('p2wpkh', 'empty-and-key', 'p2wpkh-single', 'p2wpkh-none-acp', 'p2wpkh-all-acp')
         if sk == 'p2sh-p2wsh':
-            return wk in ('p2wsh-multisig', 'p2wsh-multisig-mixed')
+            return wk.startswith('p2wsh-')
         return False
     shapes = []
     # every input script class x witness class (single input), every output class
@@ -312,11 +329,25 @@ def run(replay=None):
                 for j, ks in enumerate(keys):
                     if ks:
                         t.sign(ks, index_n=j)
+            # the calls documented to re-sign and update the transaction: afterwards the id the object reports is the id of
+            # what it serializes to
+            mut = rng.choice(['', '', 'sign_and_update', 'set_locktime_blocks', 'set_locktime_time', 'set_locktime_relative_blocks',
+                              'set_locktime_relative_time']) if signed else ''
+            if mut == 'sign_and_update':
+                t.sign_and_update()
+            elif mut == 'set_locktime_blocks':
+                t.set_locktime_blocks(rng.choice([1, 650000]))
+            elif mut == 'set_locktime_time':
+                t.set_locktime_time(rng.choice([500000001, 1800000000]))
+            elif mut == 'set_locktime_relative_blocks':
+                t.set_locktime_relative_blocks(rng.choice([1, 144]), input_index_n=rng.randrange(nin))
+            elif mut == 'set_locktime_relative_time':
+                t.set_locktime_relative_time(rng.choice([512, 512 * 300]), input_index_n=rng.randrange(nin))
             raw = t.raw()
         except Exception as e:
             ck.violation(None, 'clause build-raised; API build/sign of %s %s transaction raised %r' % (net, wt, e))
             continue
-        built.append((t, raw, (net, wt, nin, signed)))
+        built.append((t, raw, (net, wt, nin, signed, mut)))
     recs = [{'k': 'judge', 'tx': jtx(lib_fields(t)), 'raw': blist(raw), 'signed': bool(k[3] and t.verified is not False and
              all(i.signatures or i.witnesses for i in t.inputs))} for t, raw, k in built]
     verdicts = common.tlc_eval('TxFormatEval', recs, timeout=3000)
@@ -353,6 +384,9 @@ def run(replay=None):
         t2 = Transaction.parse(raw, strict=False, network=klass[0])
         if t2.txid != want:
             ck.violation(None, 'clause api-txid; API-built %s transaction re-parsed: txid %s, expected %s' % (klass, t2.txid, want))
+        if klass[4] and t.txid != want:
+            ck.violation(None, 'clause api-txid-after-update; API-built %s transaction after %s(): the object reports txid %s, its '
+                         'serialization has %s' % (klass[:4], klass[4], t.txid, want), {'api': list(klass)})
 
     # ---------------- blocks of generated transactions
     blocks = []
